@@ -929,6 +929,10 @@ fn run_op(st: &mut St, op: &str) -> Res {
             let mut shared = std::mem::take(&mut st.xctx);
             let sc = query_ranks_ctx(&d, &expr, &mut shared);
             st.xctx = shared;
+            // and in the raw view (adjacent text items are separate nodes): only its order is judged
+            st.set_view(false);
+            let raw = query_ranks(&d, &expr);
+            st.set_view(true);
             let text = d.to_string();
             st.set_view(false);
             let b = match dom::XmlDocument::from_raw_with_context(
@@ -944,8 +948,8 @@ fn run_op(st: &mut St, op: &str) -> Res {
             let has_empty = ranks(&d, false).len() != ranks(&d, true).len();
             st.set_view(false);
             Res::Query(format!(
-                "q:{}/{};{}/{};e{};s{}",
-                a.0, b.0, a.1, b.1, has_empty as u8, sc.0
+                "q:{}/{};{}/{};e{};s{};r{}",
+                a.0, b.0, a.1, b.1, has_empty as u8, sc.0, raw.0
             ))
         }
         _ => Res::Na,
